@@ -279,7 +279,7 @@ func c18run(w *report.W) {
 		sets = append(sets, []member{m1})
 		for _, m2 := range memberChoices {
 			sets = append(sets, []member{m1, m2})
-			if w.Thorough() {
+			if true {
 				for _, m3 := range memberChoices {
 					sets = append(sets, []member{m1, m2, m3})
 				}
@@ -406,7 +406,7 @@ func init() {
 		Rule: "finite tables fully enumerated: 12 key forms (RSA-2048, EC P-256/384/521, Ed25519 private+public, two oct sizes) x every algorithm name the JOSE " +
 			"library registers (signature, key-encryption, content-encryption) plus none/unknown/empty/case and padding variants/missing, set programmatically and through " +
 			"JSON parsing; generated pairs (2 per approved algorithm) validate and the 6x6 sign/verify matrix x 3 payloads accepts exactly the diagonal; key-set files: " +
-			"every list of <=2 (quick) / <=3 (thorough) keys over ids {a,b,none} x valid/invalid algorithm x requested id in {\"\",a,b,c}. Non-trivial = rows the rule accepts, " +
+			"every list of <=3 keys over ids {a,b,none} x valid/invalid algorithm x requested id in {\"\",a,b,c}. Non-trivial = rows the rule accepts, " +
 			"sign/verify pairs and key-set cases.",
 		Assumptions: []string{
 			"jwx key generation/signing is a black box that verifies exactly what it signed",
